@@ -1,3 +1,4 @@
 import CohdlVerif.Model.DriverLoop
--- model driver of property C17 (stub: no model entry points yet)
-def main : IO Unit := CohdlVerif.driverLoop (fun _ => "bad-op")
+import CohdlVerif.Model.C17
+-- model driver of property C17: `count T` | `tobits T V` | `frombits T BITS` | `spec-*` | `offsets T` | `bfread ..` | `bfwrite ..`
+def main : IO Unit := CohdlVerif.driverLoop CohdlVerif.C17.handle
